@@ -32,7 +32,14 @@ Definition to_op (x : sx) : pop :=
   | 3%Z => OPostsel (to_ps (nthx 1 x))
   | 4%Z => OClearPs
   | 5%Z => OHerald (to_nat (nthx 1 x)) (to_nat (nthx 2 x))
-  | _ => OParam (to_nat (nthx 1 x)) (to_Z (nthx 2 x))
+  | 6%Z => OParam (to_nat (nthx 1 x)) (to_Z (nthx 2 x))
+  | 7%Z => OExpFilter (to_opt to_nat (nthx 1 x))
+  | 8%Z => OSetParam (to_nat (nthx 1 x)) (to_opt to_Z (nthx 2 x))
+  | 9%Z => OClearParams
+  | 10%Z => OInputLogical (to_nats (nthx 1 x))
+  | _ => let c := nthx 1 x in
+         OAssignExp (mkcirc (to_nat (nthx 0 c)) (to_nat (nthx 1 c)) (seq 0 (to_nat (nthx 1 c))) (to_pairs to_nat to_Z (nthx 2 c)))
+                    (to_nats (nthx 2 x)) (to_opt to_nat (nthx 3 x)) (to_opt to_noise (nthx 4 x)) (to_opt to_nats (nthx 5 x))
   end.
 
 Definition to_entry (x : sx) : ientry :=
@@ -93,7 +100,7 @@ Definition of_pval (v : pval) : sx :=
   | VCmd c => L [I 0; of_nat_sx c]
   | VCirc c => L [I 1; of_circ c]
   | VState s => L [I 2; of_nats s]
-  | VParams f => L [I 3; of_opt of_nat_sx f]
+  | VParams d => L [I 3; of_dict d]
   | VPs p => L [I 4; of_ps p]
   | VHer h => L [I 5; of_pairs of_nat_sx of_nat_sx h]
   | VNoise n => L [I 6; of_noise n]
@@ -111,7 +118,8 @@ Definition of_view (v : view) : sx :=
 
 Definition of_proc (p : proc) : sx :=
   L [of_circ (p_circ p); of_nats (p_pnames p); of_nats (p_ports p); of_pairs of_nat_sx of_nat_sx (p_her p);
-     of_opt of_nats (p_in p); of_opt of_ps (p_ps p); of_opt of_noise (p_noise p); of_opt of_nat_sx (p_filter p)].
+     of_opt of_nats (p_in p); of_opt of_ps (p_ps p); of_opt of_noise (p_noise p); of_opt of_nat_sx (p_filter p);
+     of_dict (cur_params p)].
 
 (* apply ops in sequence; a refused op leaves the processor unchanged *)
 Fixpoint apply_ops (p : proc) (ops : list pop) : proc * list obs :=
@@ -120,7 +128,7 @@ Fixpoint apply_ops (p : proc) (ops : list pop) : proc * list obs :=
   | o :: r =>
       match apply_op p o with
       | Ok p' => let pr := apply_ops p' r in (fst pr, ODone :: snd pr)
-      | Err e w => let pr := apply_ops p r in (fst pr, ORaised e w :: snd pr)
+      | Err e w => let pr := apply_ops (op_residue p o) r in (fst pr, ORaised e w :: snd pr)
       end
   end.
 
@@ -136,7 +144,8 @@ Definition x_scenario (x : sx) : sx :=
   let c := mkcirc (to_nat (nthx 1 b)) size (seq 0 size) (to_pairs to_nat to_Z (nthx 7 b)) in
   let pn := to_nats (nthx 3 b) in
   let ports := to_nats (nthx 5 b) in
-  let with_ports p := mkproc (p_circ p) (p_pnames p) ports (p_her p) (p_in p) (p_ps p) (p_noise p) (p_filter p) in
+  let ctor_noise := to_opt to_noise (nthx 8 b) in       (* RemoteProcessor(..., noise=...) / Processor(..., noise=...) *)
+  let with_ports p := mkproc (p_circ p) (p_pnames p) ports (p_her p) (p_in p) (p_ps p) ctor_noise (p_filter p) (p_pdicts p) in
   let ops := map to_op (to_list (nthx 2 x)) in
   let shots := to_opt to_Z (nthx 3 x) in
   let evs := map to_ev (to_list (nthx 4 x)) in
